@@ -202,6 +202,7 @@ class Driver(object):
         self.opi += 1
         k = self.kernel
         k.now = op['now'] / self.U
+        k.trace.append(('pass', self.opi - 1, op['now']))      # harness marker, not an effect
         k.forkq = list(op.get('forkq', []))
         k.killq = list(op.get('killq', []))
         for a in op['acts']:
@@ -272,6 +273,7 @@ class Driver(object):
             self.pending = keep + self.pending
         elif kind == 'rpc':
             req, what = a[1], a[2]
+            k.trace.append(('req', req, what, a[3] if len(a) > 3 else -1, a[4] if len(a) > 4 else -1))   # marker
             r = self.rpc
             name = lambda i: ('g%d:p%d' % (self.script['procs'][i]['group'], i)) if i < len(self.procs) else 'g0:nosuch'
             gname = lambda g: ('g%d' % g) if g < len(self.script['groups']) else 'nosuchgroup'
